@@ -145,8 +145,12 @@ def run(ctx):
     evals += nv
     for key, what, h in vbad:
         ctx.violation(key, what, {'kind': 'validator'})
+    na, abad = validator_amount_limits()
+    evals += na
+    for key, what in abad:
+        ctx.violation(key, what, {'kind': 'amounts'})
     ctx.cov.update({
-        'evaluations': evals + nb + 12,
+        'evaluations': evals + nb + 12, 'amount_lists_offered_to_the_validator': na,
         'distinct_nontrivial': sum(r[2] for r in res),
         'rule': "every height 0..%d individually (all %d heights with non-zero subsidy + one zero era), every era "
                 "boundary b*1,050,000+{-1,0,1} for b up to %d, 2^32-1, 2^63, 2^64; the same heights once more in descending order; "
@@ -195,6 +199,35 @@ def validator_boundaries():
                     bad.append(('validator-reward-bound', "at height %d a reward of subsidy(%d)%s = %d is %s by the validator" % (
                         h, h, '+1' if extra else '', ref(h) + extra, 'accepted' if ok else 'refused'), h))
     return n, bad
+
+
+def validator_amount_limits():
+    """the maximum supply is the upper limit the validator places on ANY amount: every output list of length 1..4 over a
+    boundary alphabet (and a few longer ones) is offered to the stand-alone transaction validator; it must be accepted
+    exactly when every output is in (0, MAX] and the total is in (0, MAX]"""
+    import itertools
+    from skepticoin import consensus as C
+    from skepticoin.datatypes import Transaction, Input, Output, OutputReference
+    from skepticoin.signing import SECP256k1PublicKey, SECP256k1Signature
+    pk = SECP256k1PublicKey(b'\x07' * 64)
+    inp = [Input(OutputReference(b'\x11' * 32, 0), SECP256k1Signature(b'\x05' * 64))]
+    alpha = [0, 1, 2, MAXS // 3, MAXS // 3 + 1, MAXS // 2, MAXS // 2 + 1, MAXS - 1, MAXS, MAXS + 1]
+    lists = [lst for n in (1, 2, 3, 4) for lst in itertools.product(alpha, repeat=n)]
+    lists += [(MAXS // 5 + 1,) * 5, (MAXS // 5,) * 5, (MAXS // 1000 + 1,) * 1000, (MAXS // 1000,) * 1000,
+              (1,) * 7 + (MAXS - 7,), (1,) * 7 + (MAXS - 6,), (MAXS // 2, 1, MAXS // 2, 1, 1)]
+    bad = []
+    for lst in lists:
+        want = all(0 < v <= MAXS for v in lst) and 0 < sum(lst) <= MAXS
+        try:
+            C.validate_non_coinbase_transaction_by_itself(Transaction(list(inp), [Output(v, pk) for v in lst]))
+            got = True
+        except Exception:
+            got = False
+        if got != want and len(bad) < 6:
+            shown = list(lst) if len(lst) <= 8 else '%d x %d' % (len(lst), lst[0])
+            bad.append(('validator-amount-limit', "a transaction with outputs %s (total %d, limit %d) is %s by the validator" % (
+                shown, sum(lst), MAXS, 'accepted' if got else 'refused')))
+    return len(lists), bad
 
 
 def _constants(P, C):
@@ -256,6 +289,9 @@ def replay(data, ctx):
     elif data['kind'] == 'validator':
         nv, vbad = validator_boundaries()
         out += [(k, w) for k, w, h in vbad]
+    elif data['kind'] == 'amounts':
+        na, abad = validator_amount_limits()
+        out += abad
     elif data['kind'] == 'pair':
         for a in (data['a'] if isinstance(data['a'], list) else [data['a']]):
             C.get_block_subsidy(a)
